@@ -236,6 +236,17 @@ pub fn bank_program(rng: &mut Rng) -> Vec<u8> {
             }
         }
     }
+    if rng.chance(1, 4) {
+        // a bank that is never written to the output (no #outp) holding only
+        // things that emit nothing: labels, reservations, an empty string
+        s.push_str("#bankdef ram\n{\n    #bits 8\n    #addr 0x4000\n    #size 0x20\n}\n\n#bank ram\nram_var:\n#res 2\n");
+        match rng.below(3) {
+            0 => s.push_str("#d \"\"\n"),
+            1 => s.push_str("#ruledef\n{\n    marker => 0`0\n}\nmarker\n"),
+            _ => {}
+        }
+        s.push_str("ram_end:\n");
+    }
     s.into_bytes()
 }
 
